@@ -434,3 +434,14 @@ func (oc *OConn) RawBytes() []byte {
 	defer oc.mu.Unlock()
 	return append([]byte(nil), oc.RawIn.Bytes()...)
 }
+
+// WaitBuffered reads until at least n unconsumed bytes are buffered (nothing is consumed).
+func (s *Stream) WaitBuffered(n int, wait time.Duration) error {
+	deadline := time.Now().Add(wait)
+	for len(s.buf) < n {
+		if err := s.fill(deadline); err != nil {
+			return err
+		}
+	}
+	return nil
+}
